@@ -421,8 +421,8 @@ func fillG() *rapid.Generator[[]byte] {
 	}))
 }
 
-// reuseLabel: class of the case with respect to buffer state and tag history.
-func reuseLabel(c *Case) string {
+// reuseLabels: classes of the case with respect to buffer state and tag history.
+func reuseLabels(c *Case) {
 	buf := "fresh"
 	switch {
 	case len(c.Fill) > 0 && len(c.Prev) > 0:
@@ -434,7 +434,8 @@ func reuseLabel(c *Case) string {
 	case len(c.Prev) > 0:
 		buf = "prev-shorter"
 	}
-	return fmt.Sprintf("buf=%s notag-after-real=%v notag-after-real-unpacked=%v", buf, sentinelAfterReal(c.NewTag, c.Tags), sentinelAfterReal(lastTag(c), c.UTags))
+	hx.Label(fmt.Sprintf("%s buf=%s", c.Kind, buf))
+	hx.Label(fmt.Sprintf("settag: notag-after-real on built=%v on unpacked=%v", sentinelAfterReal(c.NewTag, c.Tags), sentinelAfterReal(lastTag(c), c.UTags)))
 }
 
 func lastTag(c *Case) uint16 {
@@ -581,7 +582,7 @@ func TestPropCodec(t *testing.T) {
 		drawReuse(t, c, cfg)
 		hx.Eval()
 		hx.Label(fmt.Sprintf("type=%s dotu=%v str=%s", ref9p.TypeName(typ), dotu, gen9p.StrClass(m)))
-		hx.Label(reuseLabel(c))
+		reuseLabels(c)
 		if nontrivial(m, dotu, c.Pkt) {
 			hx.NonTrivial("msg", dotu, c.Pkt)
 		}
@@ -630,7 +631,7 @@ func TestPropRread(t *testing.T) {
 		}
 		drawReuse(t, c, gen9p.Cfg{Heavy: true, MaxData: 20000})
 		hx.Eval()
-		hx.Label("rread " + reuseLabel(c))
+		reuseLabels(c)
 		hx.Label(fmt.Sprintf("rread-two-step shrink=%v tagfirst=%v", n < init, c.TagFirst))
 		if n > 0 {
 			hx.NonTrivial("rread", init, c.Pkt)
